@@ -59,11 +59,12 @@ def _compile(src):
   return c
 
 
-def _run(src, x):
-  """Runs src with `x` bound; returns (outcome, x-after-possible-rebinding)."""
+def _run(src, x, R=None):  # pylint: disable=invalid-name
+  """Runs src with `x` (and `R`) bound; returns (outcome, x-after-rebinding)."""
   code, is_expr = _compile(src)
   env = dict(_ENV)
   env['x'] = x
+  env['R'] = R
   try:
     if is_expr:
       v = eval(code, env)  # pylint: disable=eval-used
@@ -101,20 +102,18 @@ class Op:
 
 
 _WITNESS_HEAD = '''import pyglove as pg
-M = pg.MISSING_VALUE; Ins = pg.Insertion
+M=pg.MISSING_VALUE;Ins=pg.Insertion
 def N(v):
-  if isinstance(v, dict): return {k: N(v[k]) for k in list(v)}
-  if isinstance(v, list): return [N(e) for e in v]
-  if isinstance(v, tuple): return tuple(N(e) for e in v)
-  if hasattr(v, '__next__') or type(v).__name__.startswith('dict_'): return [N(e) for e in v]
-  return v
-def run(src):
-  try:
-    try: c = compile(src, 'w', 'eval')
-    except SyntaxError: exec(src, globals()); return ('ok', 'None')
-    return ('ok', repr(N(eval(c, globals()))))
-  except Exception as e: return ('exc', type(e).__name__)
-'''
+ if isinstance(v,dict):return {k:N(v[k]) for k in list(v)}
+ if isinstance(v,(list,tuple)):return (tuple if isinstance(v,tuple) else list)(N(e) for e in v)
+ if hasattr(v,'__next__') or type(v).__name__[:5]=='dict_':return [N(e) for e in v]
+ return v
+def run(s):
+ try:
+  try:c=compile(s,'w','eval')
+  except SyntaxError:exec(s,globals());return('ok','None')
+  return('ok',repr(N(eval(c,globals()))))
+ except Exception as e:return('exc',type(e).__name__)'''
 
 
 def _witness(ctor, init, prefix, src, check):
@@ -166,20 +165,24 @@ _DICT_OBS = [
 ]
 
 
-def _observe(x, r, kind):
-  """Returns None or (case-suffix, obs-name, src, got, want)."""
-  rr = repr(r)
-  raw_src = (_LIST_RAW if kind == 'List' else _DICT_RAW).replace('R', rr)
-  raw_ok, _ = _run(raw_src, x)
-  if raw_ok != ('ok', 'True'):
-    shown, _ = _run('list(list.__iter__(x))' if kind == 'List' else 'list(dict.items(x))', x)
-    return ('state', 'raw-contents', raw_src, shown, ('ok', rr))
+def _raw_equal(x, r, kind):
+  return _run(_LIST_RAW if kind == 'List' else _DICT_RAW, x, r)[0] == ('ok', 'True')
+
+
+def _observe(x, r, kind, light=False):
+  """Returns None or (where, obs-name, src, got, want)."""
+  if not _raw_equal(x, r, kind):
+    src = 'list(list.__iter__(x))' if kind == 'List' else 'list(dict.items(x))'
+    shown, _ = _run(src, x)
+    want = ('ok', repr(N(r) if kind == 'List' else list(N(r).items())))
+    return ('state', 'raw-contents', src, shown, want)
+  if light:
+    return None
   for name, src, ref_src in (_LIST_OBS if kind == 'List' else _DICT_OBS):
-    s = src.replace('R', rr)
-    got, _ = _run(s, x)
-    want, _ = _run((ref_src or src).replace('R', rr), N(r))
+    got, _ = _run(src, x, r)
+    want, _ = _run(ref_src or src, N(r), r)
     if got != want:
-      return ('read', name, s, got, want)
+      return ('read', name, src.replace('R', repr(r)), got, want)
   return None
 
 
@@ -194,14 +197,17 @@ def _copy_plain(r):
 class Session:
   """Drives one symbolic container and its reference through a history."""
 
-  def __init__(self, rec, kind, init):
-    self.rec, self.kind = rec, kind
+  def __init__(self, rec, kind, init, full_reads=False, resync_on_fail=True):
+    self.rec, self.kind, self.full_reads = rec, kind, full_reads
+    self.resync_on_fail = resync_on_fail
     self.r = _copy_plain(init)
     self.x = _fresh(kind, init)
     self.base = _copy_plain(init)   # contents at the last (re)sync
     self.prefix = []                # op sources since the last (re)sync
 
   def resync(self):
+    if not self.resync_on_fail:
+      return
     self.x = _fresh(self.kind, self.r)
     self.base = _copy_plain(self.r)
     self.prefix = []
@@ -220,7 +226,7 @@ class Session:
       # Order left open by the statement: adopt whichever acceptable state the
       # symbolic container took (if any).
       for alt in op.alts(before):
-        if _run((_LIST_RAW if kind == 'List' else _DICT_RAW).replace('R', repr(alt)), self.x)[0] == ('ok', 'True'):
+        if _raw_equal(self.x, alt, kind):
           self.r = alt
           if want[0] == 'ok':
             want = ('ok', repr(alt)) if got == ('ok', repr(alt)) else want
@@ -243,17 +249,16 @@ class Session:
       self.resync()
       return False
     if not isinstance(self.x, (pg.List, pg.Dict)):
-      rec.case(cid + '/state', key, False, f'{op.src}: container replaced by {type(self.x)}',
+      rec.case(cid, key, False, f'{op.src}: container replaced by {type(self.x)}',
                _witness(kind, self.base, self.prefix, op.src, f'assert isinstance(x, pg.{kind}), type(x)'))
       self.resync()
       return False
-    bad = _observe(self.x, self.r, kind)
+    bad = _observe(self.x, self.r, kind, light=not op.mut and not self.full_reads)
     if bad is not None:
       where, name, osrc, ogot, owant = bad
-      if where == 'state':
-        fid = cid + '/state'
-      else:
-        fid = f'{kind.lower()}.read/{name}'
+      # Contents differ -> blame the operation; contents equal but a read API
+      # disagrees -> blame that read API (independent of the operation).
+      fid = cid if where == 'state' else f'{kind.lower()}.read/{name}'
       msg = (f'after {op.src} on {before!r}: observation {name}: got {ogot}, '
              f'reference {owant} (reference contents {self.r!r})')
       wit = _witness(kind, self.base, self.prefix + [op.src], None,
@@ -263,7 +268,7 @@ class Session:
       return False
     rec.case(cid, key, True)
     self.prefix.append(op.src)
-    if len(self.prefix) > 6:
+    if len(self.prefix) >= 8:
       self.resync()
     return True
 
@@ -286,7 +291,7 @@ def _step_cls(st):
     return 'step=1'
   if st == 0:
     return 'step=0'
-  return 'step>1' if st > 1 else ('step=-1' if st == -1 else 'step<-1')
+  return 'step>1' if st > 1 else 'step<0'
 
 
 def _set_slice_cid(s, e, st, k):
@@ -296,13 +301,12 @@ def _set_slice_cid(s, e, st, k):
       return 'list.setitem-slice/step=0'
     a, b, c = slice(s, e, st).indices(len(r))
     size = len(range(a, b, c))
-    if sc == 'step=1':
-      if a > b:
-        rel = 'start>stop'
-      elif k == size:
-        rel = 'same-size'
-      else:
-        rel = 'grow' if k > size else 'shrink'
+    if sc == 'step<0':
+      return 'list.setitem-slice/step<0'
+    if a > b:
+      rel = 'start>stop'
+    elif sc == 'step=1':
+      rel = 'same-size' if k == size else ('grow' if k > size else 'shrink')
     else:
       rel = 'size-match' if k == size else 'size-mismatch'
     return f'list.setitem-slice/{sc}/{rel}'
@@ -387,16 +391,27 @@ def _rebind_cid(ups):
   def f(r):
     n = len(r)
     if len(ups) > 1:
-      return 'list.rebind-multi/' + '+'.join(sorted({
-          {'r': 'replace', 'i': 'insert', 'd': 'delete'}[k] if i < n else
-          {'r': 'append', 'i': 'insert-past-end', 'd': 'delete-past-end'}[k]
-          for i, k, _ in ups}))
+      past = sum(1 for i, _, _ in ups if i >= n)
+      if past >= 2:
+        return 'list.rebind-multi/several-past-end'
+      return 'list.rebind-multi/' + ('one-past-end' if past else 'in-range')
     i, k, _ = ups[0]
     if i < 0:
       return f'list.rebind/{ {"r": "replace", "i": "insert", "d": "delete"}[k]}-negative-{_icls(i, n)}'
     if i >= n:
       return 'list.rebind/' + {'r': 'append-past-end', 'i': 'insert-past-end', 'd': 'delete-past-end'}[k]
     return 'list.rebind/' + {'r': 'replace', 'i': 'insert', 'd': 'delete'}[k]
+  return f
+
+
+def _ins_cid(i):
+  def f(r):
+    n = len(r)
+    if i >= n:
+      return 'list.insert/at-or-past-end'
+    if i < -n:
+      return 'list.insert/below-start'
+    return 'list.insert/in-range' if i >= 0 else 'list.insert/negative'
   return f
 
 
@@ -453,14 +468,7 @@ def list_write_ops(lo, hi, steps, max_new, vals=None, slices=True, multi=True):
   ops.append(Op('x.append(M)', 'list.append/MISSING(no-op)', ref=lambda r: None))
   for i in range(lo, hi + 1):
     for v in vals[:2] + vals[3:4]:
-      def ins_cid(r, i=i):
-        n = len(r)
-        if i >= n:
-          return 'list.insert/at-or-past-end'
-        if i < -n:
-          return 'list.insert/below-start'
-        return 'list.insert/in-range' if i >= 0 else 'list.insert/negative'
-      ops.append(Op(f'x.insert({i}, {v!r})', ins_cid))
+      ops.append(Op(f'x.insert({i}, {v!r})', _ins_cid(i)))
       ops.append(Op(f'x[{i}] = {v!r}', lambda r, i=i: f'list.setitem/{_icls(i, len(r))}'))
     ops.append(Op(f'x[{i}] = M', lambda r, i=i: f'list.setitem-MISSING/{_icls(i, len(r))}',
                   ref=_ref_setitem_missing(i)))
@@ -528,7 +536,7 @@ def list_write_ops(lo, hi, steps, max_new, vals=None, slices=True, multi=True):
     for s in bounds:
       for e in bounds:
         for st in steps:
-          ops.append(Op(f'del x[{_sl(s, e, st)}]', f'list.delitem-slice/{_step_cls(st)}'))
+          ops.append(Op(f'del x[{_sl(s, e, st)}]', 'list.delitem-slice' + ('/step=0' if st == 0 else '')))
           for k in range(0, max_new + 1):
             new = list(range(80, 80 + k))
             ops.append(Op(f'x[{_sl(s, e, st)}] = {new!r}', _set_slice_cid(s, e, st, k)))
@@ -584,9 +592,12 @@ def drv_list_single(tier, seed):
     lo, hi = -n - 2, n + 2
     st = steps if wide else [None, 2, -1]
     sample = [0, 1, 5, 'v', None, [0], {'k': 0}]
-    ops = list_read_ops(lo, hi, st, sample) + list_write_ops(lo, hi, st, n + 1, slices=True, multi=True)
+    ops = list_read_ops(lo, hi, st, sample) + list_write_ops(
+        lo, hi, st, n + 1 if wide else 1, slices=wide or tier != 'quick', multi=wide or tier != 'quick')
+    if not wide:
+      ops += [o for o in _hist_alphabet(0) if 'slice' in o.cid(init) or 'rebind' in o.cid(init)]
     for op in ops:
-      s = Session(rec, 'List', init)
+      s = Session(rec, 'List', init, full_reads=True, resync_on_fail=False)
       s.step(op, (init, op.src))
   return rec.result()
 
@@ -596,29 +607,29 @@ def _hist_alphabet(size):
   ops = [
       Op('x.append(5)', 'list.append'),
       Op('x.append([6, [7]])', 'list.append'),
-      Op('x.insert(0, 4)', 'list.insert/h'),
-      Op('x.insert(1, {"k": 8})', 'list.insert/h'),
-      Op('x.insert(-1, 3)', 'list.insert/h'),
-      Op('x.insert(9, 2)', 'list.insert/h'),
+      Op('x.insert(0, 4)', _ins_cid(0)),
+      Op('x.insert(1, {"k": 8})', _ins_cid(1)),
+      Op('x.insert(-1, 3)', _ins_cid(-1)),
+      Op('x.insert(9, 2)', _ins_cid(9)),
       Op('x.extend([7, 8])', 'list.extend/list'),
-      Op('x.pop()', 'list.pop/h'),
-      Op('x.pop(0)', 'list.pop/h'),
-      Op('x.pop(-2)', 'list.pop/h'),
-      Op('x.remove(5)', 'list.remove/h'),
-      Op('del x[0]', 'list.delitem/h'),
-      Op('del x[-1]', 'list.delitem/h'),
-      Op('del x[1:3]', 'list.delitem-slice/step=1'),
-      Op('del x[::2]', 'list.delitem-slice/step>1'),
-      Op('x[0] = 9', 'list.setitem/h'),
-      Op('x[-1] = [1]', 'list.setitem/h'),
-      Op('x[1] = M', 'list.setitem-MISSING/h', ref=_ref_setitem_missing(1)),
-      Op('x[1:2] = [7, 8, 9]', 'list.setitem-slice/h-grow'),
-      Op('x[0:2] = [7]', 'list.setitem-slice/h-shrink'),
-      Op('x[1:1] = [3]', 'list.setitem-slice/h-insert'),
-      Op('x[2:1] = [3]', 'list.setitem-slice/h-start>stop'),
-      Op('x[::2] = [0] * len(x[::2])', 'list.setitem-slice/h-step>1', ref=lambda r: r.__setitem__(slice(None, None, 2), [0] * len(r[::2]))),
-      Op('x[::-1] = list(range(len(x)))', 'list.setitem-slice/h-step=-1'),
-      Op('x[-1:0:-1] = [4] * max(0, len(x) - 1)', 'list.setitem-slice/h-step=-1-bounded'),
+      Op('x.pop()', lambda r: 'list.pop/default' + ('-empty' if not r else '')),
+      Op('x.pop(0)', lambda r: 'list.pop/' + ('empty' if not r else _icls(0, len(r)))),
+      Op('x.pop(-2)', lambda r: 'list.pop/' + ('empty' if not r else _icls(-2, len(r)))),
+      Op('x.remove(5)', lambda r: 'list.remove/' + ('present' if 5 in r else 'absent')),
+      Op('del x[0]', lambda r: f'list.delitem/{_icls(0, len(r))}'),
+      Op('del x[-1]', lambda r: f'list.delitem/{_icls(-1, len(r))}'),
+      Op('del x[1:3]', 'list.delitem-slice'),
+      Op('del x[::2]', 'list.delitem-slice'),
+      Op('x[0] = 9', lambda r: f'list.setitem/{_icls(0, len(r))}'),
+      Op('x[-1] = [1]', lambda r: f'list.setitem/{_icls(-1, len(r))}'),
+      Op('x[1] = M', lambda r: f'list.setitem-MISSING/{_icls(1, len(r))}', ref=_ref_setitem_missing(1)),
+      Op('x[1:2] = [7, 8, 9]', _set_slice_cid(1, 2, None, 3)),
+      Op('x[0:2] = [7]', _set_slice_cid(0, 2, None, 1)),
+      Op('x[1:1] = [3]', _set_slice_cid(1, 1, None, 1)),
+      Op('x[2:1] = [3]', _set_slice_cid(2, 1, None, 1)),
+      Op('x[::2] = [0] * len(x[::2])', 'list.setitem-slice/step>1/size-match'),
+      Op('x[::-1] = list(range(len(x)))', 'list.setitem-slice/step<0'),
+      Op('x[-1:0:-1] = [4] * max(0, len(x) - 1)', 'list.setitem-slice/step<0'),
       Op('x.sort(key=repr)', 'list.sort/key'),
       Op('x.reverse()', 'list.reverse'),
       Op('x.clear()', 'list.clear'),
@@ -626,7 +637,7 @@ def _hist_alphabet(size):
       Op('x *= 2', 'list.imul/k>1'),
       Op('x *= 0', 'list.imul/k<=0'),
       Op('x[:]', 'list.getitem-slice/step=1', mut=False),
-      Op('x[::-1]', 'list.getitem-slice/step=-1', mut=False),
+      Op('x[::-1]', 'list.getitem-slice/step<0', mut=False),
       Op('x[1::2]', 'list.getitem-slice/step>1', mut=False),
       Op('x[-2:]', 'list.getitem-slice/step=1', mut=False),
       Op('x.copy()', 'list.copy', mut=False),
@@ -732,6 +743,13 @@ _DKEYS = ['a', 'b', 'new', 0, 1, -1, '0', 'a.b', 'a.z', '[0]', 'a[0]', '', 'x y'
 _DVALS = [5, 'v', None, [6, [7]], {'k': 8}, {'k': {'j': [1]}}]
 
 
+def _upd_cid(op, kc, presence):
+  """update()/|= with a key that has key-path syntax is one input class."""
+  if kc == 'path-syntax-key':
+    return 'dict.update-family/path-syntax-key'
+  return f'{op}/{kc}/{presence}'.rstrip('/')
+
+
 def _ref_setitem_m(k):
   def f(r):
     r.pop(k, None)
@@ -774,24 +792,25 @@ def dict_ops(keys=None, vals=None):
         Op(f'x.pop({k!r}, None)', lambda r, p=p, kc=kc: f'dict.pop-default/{kc}/{p(r)}'),
         Op(f'x.setdefault({k!r})', lambda r, p=p, kc=kc: f'dict.setdefault-none/{kc}/{p(r)}'),
         Op(f'x[{k!r}] = M', lambda r, p=p, kc=kc: f'dict.setitem-MISSING/{kc}/{p(r)}', ref=_ref_setitem_m(k)),
-        Op(f'x.rebind({{{k!r}: M}}, raise_on_no_change=False)', lambda r, p=p, kc=kc: f'dict.rebind-MISSING/{kc}/{p(r)}',
-           ref=_ref_dict_rebind([(k, M)])),
-        Op(f'x.update({{{k!r}: M}})', lambda r, p=p, kc=kc: f'dict.update-MISSING/{kc}/{p(r)}',
-           ref=lambda r, k=k: r.pop(k, None) and None),
+        Op(f'x.update({{{k!r}: M}})', lambda r, p=p, kc=kc: _upd_cid('dict.update-MISSING', kc, p(r)),
+           ref=_ref_setitem_m(k)),
     ]
+    if kc != 'path-syntax-key':
+      # rebind keys are key paths by documentation; only path-free keys are
+      # comparable with a plain item assignment / deletion.
+      ops.append(Op(f'x.rebind({{{k!r}: M}}, raise_on_no_change=False)',
+                    lambda r, p=p, kc=kc: f'dict.rebind-MISSING/{kc}/{p(r)}', ref=_ref_dict_rebind([(k, M)])))
     for v in vals:
       ops += [
           Op(f'x[{k!r}] = {v!r}', lambda r, p=p, kc=kc: f'dict.setitem/{kc}/{p(r)}'),
           Op(f'x.setdefault({k!r}, {v!r})', lambda r, p=p, kc=kc: f'dict.setdefault/{kc}/{p(r)}'),
-          Op(f'x.update({{{k!r}: {v!r}}})', lambda r, p=p, kc=kc: f'dict.update/{kc}/{p(r)}'),
-          Op(f'x.update([({k!r}, {v!r})])', lambda r, p=p, kc=kc: f'dict.update-pairs/{kc}/{p(r)}'),
-          Op(f'x |= {{{k!r}: {v!r}}}', lambda r, p=p, kc=kc: f'dict.ior/{kc}/{p(r)}'),
+          Op(f'x.update({{{k!r}: {v!r}}})', lambda r, p=p, kc=kc: _upd_cid('dict.update', kc, p(r))),
+          Op(f'x.update([({k!r}, {v!r})])', lambda r, p=p, kc=kc: _upd_cid('dict.update-pairs', kc, p(r))),
+          Op(f'x |= {{{k!r}: {v!r}}}', lambda r, p=p, kc=kc: _upd_cid('dict.ior', kc, p(r))),
           Op(f'x | {{{k!r}: {v!r}}}', lambda r, p=p, kc=kc: f'dict.or/{kc}/{p(r)}', mut=False),
           Op(f'{{{k!r}: {v!r}}} | x', lambda r, p=p, kc=kc: f'dict.ror/{kc}/{p(r)}', mut=False),
       ]
-      if isinstance(k, int) or _kcls(k) == 'str-key':
-        # rebind keys are key paths by documentation; only path-free keys are
-        # comparable with a plain item assignment.
+      if kc != 'path-syntax-key':
         key_src = repr(k)
         ops.append(Op(f'x.rebind({{{key_src}: {v!r}}})', lambda r, p=p, kc=kc: f'dict.rebind/{kc}/{p(r)}',
                       ref=_ref_dict_rebind([(k, v)])))
@@ -813,7 +832,7 @@ def dict_ops(keys=None, vals=None):
       Op('x.update({"b": 1, "a": 2, "c": [3], 0: 4})', 'dict.update/multi'),
       Op('x.update([("c", 1), ("a", 2), (5, 3)])', 'dict.update-pairs/multi'),
       Op('x.update(pg.Dict({"a": 9, "m": {"n": 1}}))', 'dict.update/pg.Dict', ref=lambda r: r.update({'a': 9, 'm': {'n': 1}})),
-      Op('x.update(x)', 'dict.update/self'),
+      Op('x.update(x)', lambda r: _upd_cid('dict.update/self', 'path-syntax-key' if any(_kcls(k) == 'path-syntax-key' for k in r) else 'k', '')),
       Op('x |= {"b": 1, "a": 2, "c": [3], 0: 4}', 'dict.ior/multi'),
       Op('x |= [("c", 1), (5, 3)]', 'dict.ior/pairs'),
       Op('x |= {}', 'dict.ior/empty'),
@@ -878,7 +897,7 @@ def drv_dict_single(tier, seed):
   ops = dict_ops()
   for init in _DICT_INITS:
     for op in ops:
-      s = Session(rec, 'Dict', init)
+      s = Session(rec, 'Dict', init, full_reads=True, resync_on_fail=False)
       s.step(op, (init, op.src))
     if isinstance(init.get('a'), dict) and 'x' in init['a']:
       for op in _dict_deep_ops():
@@ -906,7 +925,7 @@ def _dict_hist_alphabet():
       Op("x.setdefault('e')", c('dict.setdefault-none/h')),
       Op("x.update({'b': 2, 'a': 3})", c('dict.update/h')),
       Op("x.update([(0, 1), ('f', 2)], a=4)", c('dict.update-pairs/h')),
-      Op("x.update({'a.b': 5})", c('dict.update/path-syntax-key/h')),
+      Op("x.update({'a.b': 5})", 'dict.update-family/path-syntax-key'),
       Op("x |= {'a': 6, 1: 7}", c('dict.ior/h')),
       Op("x.clear()", c('dict.clear')),
       Op("x.rebind({'a': 8, 'g': 9}, raise_on_no_change=False)", c('dict.rebind/h'), ref=_ref_dict_rebind([('a', 8), ('g', 9)])),
